@@ -65,8 +65,9 @@ def build_network(case):
     for k, nd in case["nodes"].items():
         i = int(k)
         L = nd["len"]
-        la = Lanelet(np.array([[0.0, 1.0], [L, 1.0]]), np.array([[0.0, 0.0], [L, 0.0]]),
-                     np.array([[0.0, -1.0], [L, -1.0]]), i, predecessor=list(nd["pred"]), successor=list(nd["succ"]))
+        xs = [L * j / (nd.get("pts", 2) - 1) for j in range(nd.get("pts", 2))]
+        la = Lanelet(np.array([[x, 1.0] for x in xs]), np.array([[x, 0.0] for x in xs]),
+                     np.array([[x, -1.0] for x in xs]), i, predecessor=list(nd["pred"]), successor=list(nd["succ"]))
         objs[i] = la
     for i in sorted(objs):
         net.add_lanelet(objs[i], rtree=False)
@@ -713,7 +714,9 @@ def gen_graph(rng, op):
     if rng.random() < 0.15:  # the other relation need not be the exact inverse for these functions
         inv = {i: [x for x in inv[i] if rng.random() < 0.7] for i in ids}
     fwd, bwd = ("succ", "pred") if op == "succ" else ("pred", "succ")
-    nodes = {str(i): {fwd: edges[i], bwd: inv[i], "len": lens[i]} for i in ids}
+    # centre lines of 2, 3 or 5 equally spaced vertices (the lengths are dyadic, so are the vertices)
+    pts = rng.choice([2, 2, 3, 5])
+    nodes = {str(i): {fwd: edges[i], bwd: inv[i], "len": lens[i], "pts": pts} for i in ids}
     # range limits: 0, tiny, exactly the length of some walk, default, large
     k = rng.random()
     if k < 0.1:
